@@ -561,7 +561,6 @@ impl Writer {
         for id in &fileids_to_merge {
             #[cfg(feature = "verif")]
             crate::verif::point("merge:before_unlink");
-            self.ctx.stats.remove(id);
             if let Err(e) = fs::remove_file(utils::hintfile_name(path, *id)) {
                 if e.kind() != io::ErrorKind::NotFound {
                     return Err(e.into());
@@ -572,6 +571,10 @@ impl Writer {
                     return Err(e.into());
                 }
             }
+            // Only forget a file once it is gone: a file that could not be removed stays in the
+            // statistics, so the next merge takes it again instead of merging away the newer
+            // files that hold the tombstones for it
+            self.ctx.stats.remove(id);
         }
 
         self.new_active_datafile()?;
